@@ -175,15 +175,17 @@ public:
 			+hin_.operations.store.key_len
 			+hin_.operations.store.data_len;
 		ts.assign(p,p + hin_.operations.store.triggers_len);
+		std::string key;
+		key.assign(data_in_.begin(),data_in_.begin()+hin_.operations.store.key_len);
 		if(!load_triggers(triggers,ts.c_str(),
 					hin_.operations.store.triggers_len))
 		{
+			// the new value is refused, at least never serve the value it supersedes
+			cache_->remove(key);
 			hout_.opcode=opcodes::error;
 			return;
 		}
 		time_t timeout=to_time_t(hin_.operations.store.timeout);
-		std::string key;
-		key.assign(data_in_.begin(),data_in_.begin()+hin_.operations.store.key_len);
 		std::string data;
 		data.assign(data_in_.begin()+hin_.operations.store.key_len,
 				data_in_.begin() + hin_.operations.store.key_len + hin_.operations.store.data_len);
